@@ -7,13 +7,24 @@ followed by a newline.  One output line per input line, same escaping. -/
 namespace Driver.Capture
 open MxModel.Capture
 
+def hexDigit (n : Nat) : Char :=
+  if n < 10 then Char.ofNat (48 + n) else Char.ofNat (87 + n)
+
 def unesc : List Char → List Char
   | '\\' :: 'n' :: cs => '\n' :: unesc cs
   | '\\' :: 't' :: cs => '\t' :: unesc cs
   | '\\' :: 'r' :: cs => '\r' :: unesc cs
   | '\\' :: '\\' :: cs => '\\' :: unesc cs
+  | '\\' :: 'u' :: a :: b :: c :: d :: cs =>
+    match hexNum 0 [a, b, c, d] with
+    | some n => Char.ofNat n :: unesc cs
+    | none => '\\' :: 'u' :: a :: b :: c :: d :: unesc cs
   | c :: cs => c :: unesc cs
   | [] => []
+
+/-- control characters and the Unicode line separators travel as `\uXXXX` -/
+def needsU (c : Char) : Bool :=
+  c.toNat < 32 || (127 ≤ c.toNat && c.toNat < 160) || c.toNat == 0x2028 || c.toNat == 0x2029
 
 def esc : List Char → List Char
   | [] => []
@@ -21,7 +32,12 @@ def esc : List Char → List Char
   | '\t' :: cs => '\\' :: 't' :: esc cs
   | '\r' :: cs => '\\' :: 'r' :: esc cs
   | '\\' :: cs => '\\' :: '\\' :: esc cs
-  | c :: cs => c :: esc cs
+  | c :: cs =>
+    if needsU c then
+      let n := c.toNat
+      '\\' :: 'u' :: hexDigit (n / 4096 % 16) :: hexDigit (n / 256 % 16) :: hexDigit (n / 16 % 16)
+        :: hexDigit (n % 16) :: esc cs
+    else c :: esc cs
 
 /-- split at newlines; the part after the last newline is dropped if empty -/
 def splitNl (cs : List Char) : Text :=
@@ -34,21 +50,8 @@ def splitNl (cs : List Char) : Text :=
 def fieldText (f : String) : Text := splitNl (unesc f.toList)
 def fieldLine (f : String) : Line := unesc f.toList
 
-def spanOf (t : Text) : Span :=
-  match t with
-  | [] => { first := [] }
-  | [a] => { first := a }
-  | a :: r => { first := a, more := some (r.dropLast, r.getLast?.getD []) }
-
-/-- split at every newline, keeping the last piece (a documentation text) -/
-def splitKeep (cs : List Char) : Text :=
-  let rec go (cur : List Char) : List Char → Text
-    | [] => [cur.reverse]
-    | '\n' :: r => cur.reverse :: go [] r
-    | c :: r => go (c :: cur) r
-  go [] cs
-
-def docSpan (f : String) : Span := spanOf (splitKeep (unesc f.toList))
+/-- a documentation text as it arrives -/
+def docText (f : String) : List Char := unesc f.toList
 
 def joinNl (t : Text) : List Char :=
   match t with
@@ -95,16 +98,27 @@ def showLamPos (p : LamPos) : String := s!"lam={p.sLine},{p.sCol},{p.eLine},{p.e
 
 def spanText (s : Span) : List Char := joinNl s.lines
 
-/-- the value of a docstring literal of the grammar: its content (no escape sequences) -/
-def docOf : Formula → Option Span → String
+/-- the source text of a docstring literal -/
+def litText (d : DocLit) : List Char :=
+  match d.txt.more with
+  | none => d.opn ++ d.txt.first ++ d.cls
+  | some (mid, last) => joinNl ((d.opn ++ d.txt.first) :: (mid ++ [last ++ d.cls]))
+
+/-- the docstring: for a literal written by `replace_docstring` the value the model's lexer
+reads (`=`); for any other literal of the grammar its source text (`~`; its value is CPython's
+business: the harness evaluates it) -/
+def docOf : Formula → Option (List Char) → String
   | .fn f, _ =>
     match f.body.docLit with
     | none => "%none"
-    | some d => "=" ++ str (spanText d.txt)
+    | some d =>
+      match d.value with
+      | some v => "=" ++ str v
+      | none => "~" ++ str (litText d)
   | .lam _ _, ldoc =>
     match ldoc with
     | none => "%none"
-    | some d => "=" ++ str (spanText d)
+    | some d => "=" ++ str d
 
 def srcOf : Formula → List Char
   | .fn f => withNl (render f)
@@ -182,22 +196,20 @@ def step (st : St) (line : String) : St × String :=
   | ["setdoc", idx, ii, doc] =>
     match idx.toNat?, st.chain[idx.toNat?.getD 0]? with
     | some i, some e =>
-      let d := docSpan doc
+      let d := docText doc
       match e.formula with
       | .lam l p =>
         ({ st with chain := setFormulaChain i (.lam l p) (some (some d)) st.chain }, "ok")
       | .fn g =>
-        if !(SafeChars (flat d.lines) && plainBreaks d) then (st, "unsafe")
-        else if !setDocCompiles g then
-          -- the formula is built before anything is changed (repaired by the fix: commit for C11):
-          -- a refused set_doc leaves the cells as it was
-          (st, "err Syntax")
-        else
-          ({ st with chain := setFormulaChain i (.fn (setDocS g d (ii = "1"))) none st.chain }, "ok")
+        ({ st with chain := setFormulaChain i (.fn (setDocS g d (ii = "1"))) none st.chain }, "ok")
     | _, _ => (st, "bad-op")
-  | ["safedoc", doc] =>
-    let d := docSpan doc
-    (st, s!"safe={SafeDoc d && plainBreaks d} chars={SafeChars (flat d.lines)} breaks={plainBreaks d}")
+  | ["quote", doc] =>
+    -- `quote_docstring(doc)`, what the model's lexer reads back from it, and the hypothesis of `doc_inert`
+    let d := docText doc
+    let back := match readBack (quoteDocstring d) with
+      | some v => "=" ++ str v
+      | none => "%none"
+    (st, "quoted=" ++ str (quoteDocstring d) ++ "\tback" ++ back ++ s!"\tclean={NoWsOnlyMiddle d}")
   | ["obs"] => (st, " ;; ".intercalate (st.chain.map showEntry))
   | _ => (st, "bad-op")
 
